@@ -65,7 +65,8 @@ let enc_of arch oc = match arch with
   | "arm64" -> enc_arm64 false hI_FIXED
   | "arm64p" -> enc_arm64 false hI_PINNED
   | "arm64m" -> enc_arm64 true hI_FIXED
-  | "arm" -> enc_arm (zi 12) (zi 7) (zi 0) (zi 0)          (* repaired A32 scratch r12; Thumb still r7 *)
+  | "arm" -> enc_arm (zi 12) (zi 12) (zi 0) (zi 0)         (* repaired: r12 in both states (Thumb-2 ldr.w) *)
+  | "armt7" -> enc_arm (zi 12) (zi 7) (zi 0) (zi 0)        (* repaired A32, pinned Thumb r7 *)
   | "armp" -> enc_arm (zi 9) (zi 7) (zi 0) (zi 0)          (* pinned: r9 / r7 *)
   | _ -> failwith ("unknown arch " ^ arch)
 
